@@ -160,7 +160,11 @@ def mixed_pickle_frame(rng, dps):
 
 def bad_line(rng):
   k = rng.choice(['utf8', 'utf8b', 'fields2', 'fields4', 'number', 'nants', 'infts', 'empty', 'neginf', 'hugets',
-                  'longbad', 'longutf8'])
+                  'longbad', 'longutf8', 'twice', 'twice'])
+  if k == 'twice':
+    # the same malformed text several times in a row (a sender stuck on a bad value): every copy is skipped
+    bad = rng.choice([b'tw.x 2 10x00\n', b'tw.y abc 1500000000\n', b'tw.z 1 1e999x\n', b'tw.w 3 --5\n', b'tw.v 1\n'])
+    return bad * rng.randint(2, 3), k
   if k == 'longbad':
     return b'x' * rng.randint(401, 900) + rng.choice([b' 1\n', b' a b\n', b'\n']), k
   if k == 'longutf8':
